@@ -86,8 +86,11 @@ func (cs ChainStorage) FindConversionChain(crdName string, rule Rule) []Rule {
 					continue
 				}
 
-				//nolint
-				newPath := append(chain.PathsCache[ruleToCheck], nextRule)
+				// Copy the cached path: appending to it in place can overwrite the last step
+				// of another path that shares the same backing array.
+				cachedPath := chain.PathsCache[ruleToCheck]
+				newPath := make([]Rule, 0, len(cachedPath)+1)
+				newPath = append(append(newPath, cachedPath...), nextRule)
 
 				// This path is already discovered.
 				p := chain.SearchPathForRule(newRule)
